@@ -4,7 +4,7 @@
 From Verif Require Import Base.Prelude Gen.ParseLitGen Model.Tree Model.Spec Model.Rewrite Model.ParseLit Model.CharClass Model.Parser
   Model.FinalOpt
   Proofs.SpecProofs Proofs.SpecBoundsProofs Proofs.SpecTermProofs Proofs.RewriteProofs
-  Proofs.FinalOptDen Proofs.FinalOptK Proofs.FinalOptPrune Proofs.FinalOptLink Proofs.FinalOptLeaf Proofs.FinalOptWalk Proofs.FinalOptAtomic.
+  Proofs.FinalOptDen Proofs.FinalOptK Proofs.FinalOptPrune Proofs.FinalOptLink Proofs.FinalOptLeaf Proofs.FinalOptWalk Proofs.FinalOptAtomic Proofs.FinalOptAlt.
 From Coq Require Import ZifyBool.
 
 Section DenRel.
@@ -398,11 +398,11 @@ Qed.
 (* ---- eliminateEndingBacktracking keeps the first result; the gated reduce (lite) keeps every result *)
 Section EE.
 Variable g strict : Z.
-Hypothesis Hg8 : fo_gate g 8 = true.
 Hypothesis Hg16 : fo_gate g 16 = true.
 Hypothesis HS0 : Z.testbit strict 0 = true.
 Hypothesis HS1 : Z.testbit strict 1 = true.
 Hypothesis HS2 : Z.testbit strict 2 = true.
+Hypothesis HS3 : Z.testbit strict 3 = true.
 
 Definition ee_spec (node node' : rnode) : Prop :=
   node_ok node' /\ rw_hrefines e (tr node) (tr node') /\
@@ -448,7 +448,7 @@ Lemma fo_ee_S f par node :
     let as_loop (nd : rnode) : res rnode :=
       if n_n nd =? 1 then first_kid false nd
       else
-        do r <- fo_loop_last (Z.testbit strict 3) strict nd (fun first lastc =>
+        do r <- fo_loop_last false strict nd (fun first lastc =>
                   do b <- fo_cbma cat_in isw isew f strict lastc first [] false false false ;
                   if b then (do l' <- fo_ee cat_in isw isew f g strict true false lastc ; Ok (Some l')) else Ok None) ;
         match r with Some nd' => Ok nd' | None => Ok nd end in
@@ -505,6 +505,20 @@ Lemma fo_reduce_S f mode ptype t o ch m n str st kids :
         if (ct =? T_Empty) || (ct =? T_Nothing) then Ok child
         else if is_atomicloop_family ct then Ok child
         else if fo_is_charloop ct || fo_is_charlazy ct then Ok (Parser.make_loop_atomic child)
+        else if (ct =? T_Alternate) && negb (useRTL o1) then
+          if fo_gate g 8 then dflt child
+          else
+            match n_kids child with
+            | [] => Crash 46
+            | b0 :: _ =>
+                if n_t b0 =? T_Empty then Ok (mk_node T_Empty (n_o child))
+                else
+                  do keyed <- fo_map_res (fo_key strict) (fo_trim (n_kids child)) ;
+                  let (brs, reordered) := fo_reorder (S (length keyed)) keyed in
+                  let child1 := set_kids child brs in
+                  do child2 <- (if reordered then fo_reduce cat_in isw isew f g strict true 0 T_Atomic child1 else Ok child1) ;
+                  dflt child2
+            end
         else dflt child
     end
   else if (t =? T_PosLook) || (t =? T_NegLook) then
@@ -544,7 +558,7 @@ Proof.
     destruct ((n_t child =? T_Empty) || (n_t child =? T_Nothing)); [reflexivity|].
     destruct (is_atomicloop_family (n_t child)); [reflexivity|].
     destruct (fo_is_charloop (n_t child) || fo_is_charlazy (n_t child)); [reflexivity|].
-    destruct ((n_t child =? T_Alternate) && negb (useRTL (if t =? T_Ref then o else clear_I o))); [rewrite Hg8; reflexivity | reflexivity]. }
+    reflexivity. }
   destruct ((t =? T_PosLook) || (t =? T_NegLook)); [reflexivity|].
   destruct (t =? T_ExprCond); [|reflexivity].
   destruct (mode =? 0); [|reflexivity].
@@ -688,7 +702,7 @@ Proof.
     assert (Hloop : forall nd, node_ok nd -> (n_t nd = T_Loop \/ n_t nd = T_Lazyloop) ->
               forall nd', (if n_n nd =? 1
                            then match n_kids nd with [] => Crash 53 | k :: ks => do k' <- fo_ee cat_in isw isew f g strict true false k ; Ok (set_kids nd (k' :: ks)) end
-                           else do r <- fo_loop_last (Z.testbit strict 3) strict nd (fun first lastc =>
+                           else do r <- fo_loop_last false strict nd (fun first lastc =>
                                       do b <- fo_cbma cat_in isw isew f strict lastc first [] false false false ;
                                       if b then (do l' <- fo_ee cat_in isw isew f g strict true false lastc ; Ok (Some l')) else Ok None) ;
                                 match r with Some nd' => Ok nd' | None => Ok nd end) = Ok nd' ->
@@ -711,7 +725,6 @@ Proof.
           rewrite Ho', Hm', Hn'. replace (n_n nd) with 1 by lia. apply loop_one_tail; assumption.
       - (* FindLastExpressionInLoopForAutoAtomic: the last child of the body, disjoint from the body's first child *)
         unfold fo_loop_last in Hr.
-        destruct (Z.testbit strict 3); [cbn [bind] in Hr; injection Hr as <-; split; [exact Hnd | apply rw_hrefines_refl]|].
         destruct (kids_one nd ltac:(unfold T_Loop, T_Lazyloop in *; lia) (proj1 Hnd)) as [b Eb]. rewrite Eb in Hr.
         set (k0 := fun first lastc : rnode =>
                      do b <- fo_cbma cat_in isw isew f strict lastc first [] false false false ;
@@ -809,7 +822,34 @@ Proof.
     { injection H as <-. apply Hlift; [exact Hchild|]. apply atomic_single_refines. apply tr_atomicloop_single. exact Eal. }
     destruct (fo_is_charloop (n_t child) || fo_is_charlazy (n_t child)) eqn:Ecl.
     { injection H as <-. apply Hlift; [apply node_ok_mla; assumption | apply atomic_mla_refines; assumption]. }
-    apply (Hdflt child Hchild (rw_hrefines_refl e _) _ H). }
+    destruct ((n_t child =? T_Alternate) && negb (useRTL (if t =? T_Ref then o else clear_I o))) eqn:Ealt8;
+      [|apply (Hdflt child Hchild (rw_hrefines_refl e _) _ H)].
+    destruct (fo_gate g 8); [apply (Hdflt child Hchild (rw_hrefines_refl e _) _ H)|].
+    (* reduceAtomic's alternation branch (612-707) *)
+    assert (Etc : n_t child = T_Alternate) by lia.
+    destruct (n_kids child) as [|b0 bs] eqn:Ekids; [discriminate|].
+    destruct (n_t b0 =? T_Empty) eqn:Eb0.
+    { injection H as <-. apply Hlift.
+      - split; [|cbn; tauto]. rewrite fo_wf_unfold. cbn.
+        destruct (wf_flags child (proj1 Hchild)) as (_ & _ & _ & _ & _ & Hci & _).
+        rewrite Hci by (unfold T_Alternate in *; lia). reflexivity.
+      - rewrite (tr_alt sid child Etc), Ekids. cbn [map]. rewrite (tr_empty b0) by lia.
+        change (tr (mk_node T_Empty (n_o child))) with NEmpty.
+        eapply rw_refines_trans; [apply atomic_observes_head; apply trim_first_empty | apply atomic_single_refines; apply single_empty]. }
+    rewrite <- Ekids in H.
+    destruct (fo_map_res (fo_key strict) (fo_trim (n_kids child))) as [keyed| | |] eqn:Ekeyed; cbn [bind] in H; try discriminate.
+    destruct (atomic_alt_sound cat_in isw isew sid e sets Henv strict child keyed (S (length keyed)) HS3 Hchild Etc Ekeyed) as [Hc1 Hh1].
+    destruct (fo_reorder (S (length keyed)) keyed) as [brs reordered] eqn:Ero. cbn [fst] in Hc1, Hh1. cbv zeta in H.
+    assert (Hc2 : exists child2,
+              (if reordered then fo_reduce cat_in isw isew f g strict true 0 T_Atomic (set_kids child brs) else Ok (set_kids child brs)) = Ok child2 /\
+              node_ok child2 /\ rw_hrefines e (tr child) (tr child2)).
+    { destruct reordered.
+      - destruct (fo_reduce cat_in isw isew f g strict true 0 T_Atomic (set_kids child brs)) as [c2| | |] eqn:Ec2; cbn [bind] in H; try discriminate.
+        exists c2. split; [reflexivity|]. destruct (IHR _ _ _ _ Ec2 Hc1) as [Hc2 Hr2]. split; [exact Hc2|].
+        eapply rw_hrefines_trans; [exact Hh1 | apply rw_refines_hrefines; exact Hr2].
+      - exists (set_kids child brs). split; [reflexivity|]. split; assumption. }
+    destruct Hc2 as (child2 & E2 & Hc2 & Hh2). rewrite E2 in H. cbn [bind] in H.
+    apply (Hdflt child2 Hc2 Hh2 _ H). }
   destruct ((t =? T_PosLook) || (t =? T_NegLook)) eqn:Elk.
   { destruct (fo_ee cat_in isw isew f g strict true false x1) as [x2| | |] eqn:Ex2; cbn [bind] in H; try discriminate.
     destruct (IHE _ _ _ Ex2 Hok1) as (Hok2 & Hh & Hty).
